@@ -106,7 +106,19 @@ func init() {
 						s.approx = true
 						s.keep = func(s []uint32) bool { return s[1]&0x7FFFFFFF != 0 }
 					}
+					if k == F32 && op == "%" {
+						// WGSL defines e1 % e2 as e1 - e2*trunc(e1/e2) evaluated in floating point: keep to
+						// operands for which that formula is exact, so the oracle demands no more than WGSL.
+						nice := fbits(0.5, -0.5, 1, -1, 1.5, -1.5, 2.5, -2.5, 7.5, -7.5, 3, 6, -6)
+						s.alpha = [][]uint32{append([]uint32{0}, nice...), nice}
+					}
 					addSpec(s)
+					if k != F32 && op == "%" {
+						// second variant confined to what every target language defines (non-negative operands)
+						nn := opSpec{sig: fmt.Sprintf("bin/%%nonneg/%s/%s", c[0], c[1]), args: s.args, ret: s.ret, build: s.build, compound: s.compound, keep: s.keep,
+							alpha: [][]uint32{{0, 1, 2, 7, 31, 32, 33, 0x7FFFFFFF, 0x55555555}, {1, 2, 7, 31, 32, 33, 0x7FFFFFFF, 0x55555555}}}
+						addSpec(nn)
+					}
 				}
 			}
 		}
@@ -123,6 +135,9 @@ func init() {
 				r := VecOrScalar(U32, sh.Width())
 				addSpec(opSpec{sig: fmt.Sprintf("bin/%s/%s/%s", op, sh, r), args: []*Type{sh, r}, ret: sh, build: bin(op), compound: op,
 					alpha: [][]uint32{Alpha(k), {0, 1, 5, 31, 32, 33, 63, 0xFFFFFFFF}}})
+				// variant with in-range counts only (defined in every target language)
+				addSpec(opSpec{sig: fmt.Sprintf("bin/%sinrange/%s/%s", op, sh, r), args: []*Type{sh, r}, ret: sh, build: bin(op), compound: op,
+					alpha: [][]uint32{Alpha(k), {0, 1, 5, 16, 31}}})
 			}
 		}
 	}
